@@ -2,7 +2,7 @@
 import json, os
 from ..facts import ty_adt, tystr, walk_ty, place_local, place_proj, op_place
 from ..cfg import CFG, Tracer
-from .. import dt, instance, core
+from .. import inline, dt, instance, core
 from . import c06
 
 JSON_CT = "conjure_http::private::APPLICATION_JSON"
@@ -89,7 +89,9 @@ def decoder_bodies(c):
     out = {}
     for b in c.bodies:
         if b.kind == "fn" and b.id.startswith(PRIV) and ("decode_" in b.name):
-            rb = c06.real_body(c, b)
+            # private predicates / helpers (e.g. a shared Content-Type test) are looked through; the body reader and the other
+            # decoders are semantic atoms of these rules
+            rb = inline.expand(c, c06.real_body(c, b), depth=2, pred=lambda cb: cb.d.get("vis") != "pub" and "decode_" not in cb.name and cb.name not in ("read_body", "async_read_body"))
             out[b.name] = (b, rb)
     return out
 
@@ -146,7 +148,7 @@ def run(ctx):
         ctx.check(good, "R18.2", rb.loc(), f"{name}|provenance",
                   f"{name}: the returned value must be json::client_from_slice(read_body(response.into_body(), None)) — exactly one body read, one end-validating decode, no other source of the value",
                   instance=f"{name}: Ok(client_from_slice(read_body(body, None)))")
-    ctx.floor("R18.1", "decoders that take the response body", len(body_takers), 5)
+    ctx.floor("R18.1", "decoders that take the response body", len(body_takers), 3)
     # R18.3 204 table
     for base, kind in NO_CONTENT.items():
         for name in (base, "async_" + base):
@@ -195,7 +197,7 @@ def run(ctx):
             bb_ = [x for x in c.bodies if x.kind == "fn" and x.name == "async_read_body" and x.id.startswith("conjure_http::private::")]
             if not ba or not bb_:
                 continue
-            ra, rb2 = ba[0], c06.real_body(c, bb_[0])
+            ra, rb2 = c06.expand_reader(c, ba[0]), c06.expand_reader(c, c06.real_body(c, bb_[0]))
             readers = {"read_body": ra, "async_read_body": rb2}
         else:
             ra, rb2 = decs[a][1], decs[b_][1]
